@@ -203,6 +203,11 @@ impl WireEncode for StandardPath {
             return Err("Standard path must contain at least one segment".into());
         }
 
+        // CurrHF is a 6 bit field: hop fields beyond index MAX_TOTAL_HOPS cannot be addressed.
+        if self.hop_field_count() > StdPathMetaLayout::MAX_TOTAL_HOPS + 1 {
+            return Err("Total number of hop fields exceeds maximum allowed".into());
+        }
+
         if self.current_hop_field as usize >= self.hop_field_count() {
             return Err("curr_hop_field exceeds total number of hop fields".into());
         }
